@@ -313,7 +313,8 @@ def run(ctx, t0):
     facts = ctx.facts()
     pat.FACTS = facts
     from rules import C01 as _c01
-    rules = [rule_dict_size(facts), _c01.rule_window_size(facts, "C09.R5b"), rule_reset(facts), rule_guards(facts), rule_privacy(facts), rule_offsets(facts)]
+    rules = [rule_dict_size(facts), _c01.rule_window_size(facts, "C09.R5b"), rule_reset(facts), rule_guards(facts), rule_privacy(facts), rule_offsets(facts),
+             _c01.automaton_part(facts, "C09.R6", "the distance handed to the window is rep[0] + 1 in a width that cannot wrap to 0", ("automaton|distance",))]
     expl = ("Static: for each implementor of the window trait (enumerated from the impl list) the distance guards are "
             "located by the provenance of their operands, their failing edges must reach Err only and they must "
             "dominate every buffer access and append of the function; field privacy shows the module is the only "
